@@ -543,7 +543,10 @@ func VRefWriteBatch(s VRefBatchSpec) []byte {
 		for i, r := range s.Recs {
 			off := r.Offset
 			if s.Codec != 0 && s.Magic == 1 {
-				off = int64(i) // relative inner offsets
+				// relative inner offsets; they keep their distances when a
+				// cleaner removed records (wrapper offset = last record's offset)
+				off = r.Offset - s.Recs[0].Offset
+				_ = i
 			}
 			ts := r.TsMs
 			inner = append(inner, vrLegacyMessage(s.Magic, 0, off, ts, r.Key, r.Value)...)
